@@ -139,5 +139,36 @@ def opaque_constructs(F):
                 if private_same and n.get('fn') in ('uncompressedFile2ReadWriteQueue', 'readWriteQueue2UncompressedFile',
                                                    'compressedFile2UncompressedFile', 'uncompressedFile2CompressedFile'):
                     continue
+                if _pure_helper(c):
+                    continue   # an expression in a function's clothes: nothing a rule looks for (notify, wait, delete, a state change) can sit in it
                 out.append('call of helper %s whose result is used in %s' % (short(c['name']), where))
     return out
+
+
+def _pure_helper(c):
+    """a helper whose body only computes a value from members: no assignment to anything but its own locals, no call except accessors of
+    the standard containers / comparison and conversion operators / other member reads"""
+    from facts import walk, strip_all_casts
+    body = c.get('body')
+    if not isinstance(body, dict):
+        return False
+    for n in walk(body):
+        k = n.get('k')
+        if k in ('New', 'Delete', 'Throw', 'Lambda', 'Try', 'While', 'For', 'Do'):
+            return False
+        if k == 'Bin' and n.get('op') in ('=', '+=', '-=', '*=', '/=', '|=', '&=', '^=', '<<=', '>>='):
+            t = strip_all_casts(n.get('lhs'))
+            if not (isinstance(t, dict) and t.get('k') == 'Ref' and t.get('dk') == 'local'):
+                return False
+        if k == 'Un' and n.get('op') in ('++', '--'):
+            t = strip_all_casts(n.get('sub'))
+            if not (isinstance(t, dict) and t.get('k') == 'Ref' and t.get('dk') == 'local'):
+                return False
+        if k == 'Call':
+            if n.get('calleeInRoot'):
+                return False
+            fn = str(n.get('fn') or '')
+            if not (fn in ('size', 'empty', 'front', 'back', 'data', 'get', 'cbegin', 'cend', 'begin', 'end', 'load', 'count', 'length') or
+                    fn.startswith('operator') or n.get('ck') == 'operator' or (n.get('callee') or '') in ('std::min', 'std::max')):
+                return False
+    return True
